@@ -217,6 +217,9 @@ pub(crate) struct ZmtpUringHandler {
   /// Non-blocking delayed close (replaces `thread::sleep`).
   /// Armed when `NetAction::ScheduleClose(Some(delay))` fires; `prepare_sqes` polls it.
   close_deadline: Option<Instant>,
+  /// One deadline for the whole ZMTP handshake (HANDSHAKE_IVL), as on the Tokio session:
+  /// `prepare_sqes` polls it, cleared once the engine reaches the data phase.
+  handshake_deadline: Option<Instant>,
   use_send_zerocopy: bool,
   use_recv_multishot: bool,
   send_buffer_slot_size: usize,
@@ -240,6 +243,11 @@ impl ZmtpUringHandler {
     worker_asleep: Arc<AtomicU8>,
   ) -> Self {
     let sndbatch_count = engine.config().sndbatch_count;
+    let handshake_deadline = Instant::now()
+      + engine
+        .config()
+        .handshake_timeout
+        .unwrap_or(Duration::from_secs(15));
     Self {
       fd,
       worker_io_config,
@@ -251,6 +259,7 @@ impl ZmtpUringHandler {
       multishot_reader: None,
       is_closing: false,
       close_deadline: None,
+      handshake_deadline: Some(handshake_deadline),
       use_send_zerocopy,
       use_recv_multishot,
       send_buffer_slot_size,
@@ -530,6 +539,26 @@ impl UringConnectionHandler for ZmtpUringHandler {
   fn prepare_sqes(&mut self, interface: &UringWorkerInterface<'_>) -> HandlerIoOps {
     if self.is_closing && self.close_deadline.is_none() {
       return HandlerIoOps::new();
+    }
+
+    // A peer that stays silent or trickles bytes must not hold the connection for ever.
+    if let Some(deadline) = self.handshake_deadline {
+      if self.engine.phase == crate::protocol::zmtp::engine::ZmtpPhase::Data {
+        self.handshake_deadline = None;
+      } else if !self.is_closing && Instant::now() >= deadline {
+        self.handshake_deadline = None;
+        warn!(fd = self.fd, "ZmtpUringHandler: handshake timed out");
+        let _ = self
+          .worker_io_config
+          .socket_mailbox
+          .try_send(Command::UringFdError {
+            endpoint_uri: self.worker_io_config.endpoint_uri.clone(),
+            error: ZmqError::Timeout,
+          });
+        let mut ops = HandlerIoOps::new();
+        ops.initiate_close_due_to_error = true;
+        return ops;
+      }
     }
 
     // (a) Try to flush stashed batches back into the queue first
